@@ -1,5 +1,6 @@
 import AmrK.Scan
 import AmrK.IterLevel
+import AmrK.BoxSelProofs
 /-! # C15 — level iteration yields every box exactly once, whatever the schedule -/
 namespace C15
 open Py Taste Reader ReaderR Scan
@@ -30,5 +31,20 @@ theorem level_iteration_perm (nf f : Nat) (hf : f < nf) (parts : List (List (Ent
     (hg : ∀ eps ∈ parts, ∀ p ∈ eps, GoodFab nf p) :
     (iterLevel (parts.map (fileOf nf)) f).Perm (boxes.map fun p => block p.2 (cellsOf p.1) f) :=
   iterLevel_perm nf f hf parts boxes hp hg
+
+/-- **The on-demand iterator over a box selection yields the selected boxes in the requested order** (`stream.iter(sel)`:
+    the selection `BoxSel.positions` - compared with the boxes the real iterator delivers for every selector form - followed by
+    one read per selected box, delivered in submission order by `imap`): on a level whose every recorded entry points at the
+    FAB of its box the items are, position by position, the component blocks of the boxes the selector denotes -/
+theorem on_demand_order (files : List Bytes) (entries : List (Nat × Nat)) (nf : Nat) (fa : FArg) (sel : BoxSel.Sel)
+    (hdr : Nat → Hdr) (cells : Nat → Nat) (payload : Nat → Bytes) (ps fs : List Nat)
+    (hbox : ∀ p e, entries[p]? = some e → BoxSel.BoxAt files e nf (hdr p) (cells p) (payload p))
+    (hps : BoxSel.positions entries.length sel = some ps) (hfs : selected nf fa = some fs) :
+    ∃ shape : Nat → List Int, BoxSel.readSel files entries (nf : Int) fa sel
+      = some (ps.map fun p => ⟨shape p, fs.map (block (payload p) (cells p))⟩) := by
+  have h := BoxSel.readSel_exact files entries nf fa sel hdr cells payload hbox
+  rw [hps] at h
+  simp only [hfs] at h
+  exact h
 
 end C15
